@@ -29,6 +29,7 @@ Proof.
   - eapply pres_reqs_wk; eauto.
   - eapply pres_reqs_sd; eauto.
   - eapply pres_m2; eauto.
+  - eapply pres_appx; eauto.
   - eapply pres_mret; eauto.
   - eapply pres_cwf; eauto.
   - eapply pres_safe; eauto.
